@@ -174,6 +174,18 @@ def strict_decode(T, idl, sname, data):
     return got
 
 
+def well_formed(T, idl, sname, data):
+    """Gate before fastparquet's (unguarded, native) reader sees bytes fastparquet produced: the independent
+    decoder must be able to walk them as ONE compact-protocol struct (ids / wire types not judged here)."""
+    try:
+        _, pos = T.dec(idl, sname, data, 0, False)
+    except (T.ThriftError, IndexError, ValueError, KeyError) as e:
+        return f"serialised bytes are not a well-formed compact-protocol struct: {type(e).__name__}: {e}"
+    if pos != len(data):
+        return f"serialised bytes are not one well-formed struct: {len(data) - pos} bytes follow the stop byte"
+    return None
+
+
 def check_api(T, idl, TO, sname, val, text_as="str", absent_as="omitted"):
     want = norm(idl, sname, val)
     obj = build(idl, TO, sname, val, text_as, absent_as)
@@ -216,6 +228,9 @@ def check_pickle(T, idl, TO, sname, val, source="api"):
     import pickle
     want = norm(idl, sname, val)
     obj = build(idl, TO, sname, val) if source == "api" else TO.from_buffer(T.enc(idl, sname, val), sname)
+    bad = well_formed(T, idl, sname, bytes(obj.to_bytes()))
+    if bad:
+        return bad
     back = pickle.loads(pickle.dumps(obj))
     if type(back) is not type(obj) or back.thrift_name != sname:
         return f"unpickled object is {type(back).__name__} {getattr(back, 'thrift_name', None)}"
@@ -231,6 +246,9 @@ def check_eq(T, idl, TO, sname, val, source="api", text_as="str", via="to_bytes"
     """The literal reading: the PARSED object on the left of `==` (ThriftObject.__eq__ / dict_eq)."""
     import pickle
     obj = build(idl, TO, sname, val, text_as) if source == "api" else TO.from_buffer(T.enc(idl, sname, val), sname)
+    bad = well_formed(T, idl, sname, bytes(obj.to_bytes()))
+    if bad:
+        return bad
     back = TO.from_buffer(bytes(obj.to_bytes()), sname) if via == "to_bytes" else pickle.loads(pickle.dumps(obj))
     if not (back == obj):
         return ("from_buffer(to_bytes(x)) == x" if via == "to_bytes" else "pickle.loads(pickle.dumps(x)) == x") + \
@@ -238,7 +256,7 @@ def check_eq(T, idl, TO, sname, val, source="api", text_as="str", via="to_bytes"
     return None
 
 
-SNIPPET_HELPERS = [norm, norm_value, named, named_value, first_diff, short, build, strict_decode,
+SNIPPET_HELPERS = [well_formed, norm, norm_value, named, named_value, first_diff, short, build, strict_decode,
                    check_api, check_foreign, check_pickle, check_eq]
 
 
@@ -515,11 +533,14 @@ class LazySnippet:
             "from spec import thrift_idl as T      # independent IDL-driven compact-protocol codec\n"
             "idl = T.load()\n\n" + src + "\n\n"
             f"SNAME = {self.sname!r}\nVAL = {lit(self.val)}\n"
-            f"WHAT = {self.call}\nprint(WHAT)\nVIOLATED = WHAT is not None\n")
+            f"try:\n    WHAT = {self.call}\n"
+            "except Exception as e:      # an escaping exception is a failed contract\n"
+            "    WHAT = f'{type(e).__name__}: {e}'\nprint(WHAT)\nVIOLATED = WHAT is not None\n")
 
 
 OVERSIZE_PROG = r'''
-import os, sys, json
+import os, sys, json, resource
+resource.setrlimit(resource.RLIMIT_CORE, (0, 0))        # this process may abort: leave no core file
 sys.path.insert(0, os.environ.get('VERIF_REPO', '/repo')); sys.path.insert(0, '/verif')
 import fastparquet
 from fastparquet.cencoding import ThriftObject as TO
@@ -574,6 +595,7 @@ def make(site, n):
 
 SITE, N, PATH = {site!r}, {n!r}, {path!r}
 SNAME, VAL = make(SITE, N)
+print("SIZE", len(T.enc(idl, SNAME, VAL)), flush=True)      # size by the independent encoder, before the risky call
 WHAT = check_api(T, idl, TO, SNAME, VAL) if PATH == "api" else check_foreign(T, idl, TO, SNAME, VAL)
 print("RESULT " + json.dumps(WHAT))
 VIOLATED = WHAT is not None
@@ -600,14 +622,16 @@ def run_oversize(args):
         r = subprocess.run([sys.executable, "-c", oversize_prog(site, n, path)], capture_output=True, text=True,
                            timeout=300, cwd="/verif", env=dict(os.environ))
     except subprocess.TimeoutExpired:
-        return site, n, path, "child timed out"
+        return site, n, path, "child timed out", None
+    size = [int(l.split()[1]) for l in r.stdout.splitlines() if l.startswith("SIZE ")]
+    size = size[0] if size else None
     if r.returncode < 0:
-        return site, n, path, f"child killed by signal {-r.returncode}"
+        return site, n, path, f"child killed by signal {-r.returncode}", size
     line = [l for l in r.stdout.splitlines() if l.startswith("RESULT ")]
     if r.returncode != 0 or not line:
-        return site, n, path, f"child exit {r.returncode}: {r.stderr.strip().splitlines()[-1:] or r.stdout[-200:]}"
+        return site, n, path, f"child exit {r.returncode}: {r.stderr.strip().splitlines()[-1:] or r.stdout[-200:]}", size
     what = json.loads(line[-1][7:])
-    return site, n, path, what
+    return site, n, path, what, size
 
 
 OVERSIZE_SITES = ["Statistics.max_value", "KeyValue.value", "SchemaElement.name",
@@ -619,6 +643,75 @@ OVERSIZE_SITES = ["Statistics.max_value", "KeyValue.value", "SchemaElement.name"
 
 
 # ------------------------------------------------------------------------------------------------
+NOT_EVALUATED = "\x00not-evaluated"
+MAX_RESTARTS = 6
+
+
+def _worker_main():
+    """child: jobs (JSON list) on stdin; per job a line `B <i>` before and `E <i> <json what>` after the check, so
+    that the parent knows which case was running if this process dies (native reader/writer under test)."""
+    import_fastparquet()
+    from fastparquet.cencoding import ThriftObject as TO
+    idl = T.load()
+    fns = {"check_api": check_api, "check_foreign": check_foreign, "check_pickle": check_pickle, "check_eq": check_eq}
+    jobs = json.load(sys.stdin)
+    out = sys.stdout
+    for i, job in jobs:
+        out.write(f"B {i}\n")
+        out.flush()
+        s, opt, ints, top, extra = job["spec"]
+        try:
+            val = make_value(idl, s, opt, ints, top, extra, job["seed"], include_crypto=job["crypto"])
+            what = fns[job["fn"]](T, idl, TO, s, val, *job["args"])
+        except BaseException as e:      # noqa: an escaping exception is a failed contract
+            what = f"{type(e).__name__}: {str(e)[:300]}"
+        out.write(f"E {i} {json.dumps(what)}\n")
+        out.flush()
+
+
+def _run_worker_chunk(indexed):
+    """-> {index: what}; a job during which the child died gets `child died ...`; after MAX_RESTARTS deaths the
+    rest of the chunk is left unevaluated."""
+    res, todo, deaths = {}, list(indexed), 0
+    while todo:
+        r = subprocess.run([sys.executable, "-m", "runtime.c10_idl_roundtrip"], input=json.dumps(todo),
+                           capture_output=True, text=True, env=dict(os.environ),
+                           cwd=os.path.dirname(os.path.dirname(os.path.abspath(__file__))))
+        began = None
+        for line in r.stdout.splitlines():
+            if line.startswith("B "):
+                began = int(line[2:])
+            elif line.startswith("E "):
+                _, i, payload = line.split(" ", 2)
+                res[int(i)] = json.loads(payload)
+                began = None
+        if r.returncode == 0 and began is None and all(i in res for i, _ in todo):
+            break
+        if began is None:       # died outside a case (import, generation): engine problem, not a case result
+            raise RuntimeError(f"c10 worker failed rc={r.returncode}: {r.stderr[-400:]}")
+        sig = f"signal {-r.returncode}" if r.returncode < 0 else f"exit code {r.returncode}"
+        res[began] = f"child process died ({sig}) while this case was running: {r.stderr.strip()[-160:]}"
+        deaths += 1
+        todo = [(i, j) for i, j in todo if i not in res]
+        if deaths >= MAX_RESTARTS:
+            for i, _ in todo:
+                res[i] = NOT_EVALUATED
+            break
+    return res
+
+
+def run_worker_jobs(wire, nproc):
+    indexed = list(enumerate(wire))
+    chunks = [indexed[k::nproc] for k in range(nproc)]
+    with concurrent.futures.ThreadPoolExecutor(max_workers=nproc) as tex:
+        parts = list(tex.map(_run_worker_chunk, chunks))
+    merged = {}
+    for part in parts:
+        merged.update(part)
+    results = [merged[i] for i in range(len(wire))]
+    return results, sum(1 for r in results if r == NOT_EVALUATED)
+
+
 def run_bounded(ctx):
     import_fastparquet()
     from fastparquet.cencoding import ThriftObject as TO
@@ -641,8 +734,8 @@ def run_bounded(ctx):
                       "(ThriftObject.__eq__ -> dict_eq), objects of both origins, text given as {str, bytes}, "
                       "via {to_bytes/from_buffer, pickle}.")
     ctx.bounded_group(GO, rule="one large payload at each of the places a name / statistics value / key-value "
-                      "payload can sit, serialised size {400 000, 499 000, 500 100, 600 000, 2 000 000} bytes, "
-                      "api and foreign origin; executed in a child process only; wrong or truncated output, "
+                      "payload can sit, payload {499 000, 600 000, some 2 000 000} bytes (thorough: 9 sizes 400 000 .. "
+                      "2 000 000 incl. 499 900 / 499 990 / 500 000 / 500 100), api and foreign origin; executed in a child process only; wrong or truncated output, "
                       "exception, crash or signal = failed")
 
     def feats(s, opt, ints, extra, val, **more):
@@ -652,74 +745,75 @@ def run_bounded(ctx):
         f.update(more)
         return f
 
-    skipped = 0
+    # ---- enumerate jobs (parent: values -> features; workers: the same values -> the checks) ----------
+    jobs, skipped = [], 0
+    contracts = {
+        GA: "strict_idl_decode(to_bytes(x)) == x and x == from_buffer(to_bytes(x))",
+        GF: "strict_idl_decode(to_bytes(from_buffer(spec_encode(x)))) == x",
+        GP: "x == pickle.loads(pickle.dumps(x)) and the unpickled values are x's",
+        GE: "from_buffer(to_bytes(x)) == x ; pickle.loads(pickle.dumps(x)) == x (parsed object on the left)"}
     for s, opt, ints, top, extra in enumerate_specs(idl, ctx.tier):
         nontriv = bool(idl.structs[s])
-        # ---- API path --------------------------------------------------------------------
+        spec = [s, opt, ints, top, extra]
         val = make_value(idl, s, opt, ints, top, extra, seed, include_crypto=False)
-        if len(T.enc(idl, s, val)) > INPROC_LIMIT:
+        fval = make_value(idl, s, opt, ints, top, extra, seed, include_crypto=True)
+        if len(T.enc(idl, s, val)) > INPROC_LIMIT or len(T.enc(idl, s, fval)) > INPROC_LIMIT:
             skipped += 1
             continue
         variants = [("str", "omitted")]
         if ints == "rand" or top:
             variants = [("str", "omitted"), ("bytes", "None")]
         for text_as, absent_as in variants:
-            F = feats(s, opt, ints, extra, val, path="api", text_as=text_as, absent_as=absent_as)
-            with Case(ctx, GA, F, nontrivial=nontriv,
-                      snippet=LazySnippet(f"check_api(T, idl, TO, SNAME, VAL, {text_as!r}, {absent_as!r})", s, val),
-                      contract="strict_idl_decode(to_bytes(x)) == x and from_buffer(to_bytes(x)) == x") as c:
-                what = check_api(T, idl, TO, s, val, text_as, absent_as)
-                if what:
-                    c.fail(what)
-        # ---- foreign path (may carry the encryption family) ---------------------------------
-        fval = make_value(idl, s, opt, ints, top, extra, seed, include_crypto=True)
-        if len(T.enc(idl, s, fval)) > INPROC_LIMIT:
-            skipped += 1
-            continue
-        F = feats(s, opt, ints, extra, fval, path="foreign")
-        with Case(ctx, GF, F, nontrivial=nontriv,
-                  snippet=LazySnippet("check_foreign(T, idl, TO, SNAME, VAL)", s, fval),
-                  contract="strict_idl_decode(to_bytes(from_buffer(spec_encode(x)))) == x") as c:
-            what = check_foreign(T, idl, TO, s, fval)
-            if what:
-                c.fail(what)
-        # ---- pickle --------------------------------------------------------------------
+            jobs.append((GA, feats(s, opt, ints, extra, val, path="api", text_as=text_as, absent_as=absent_as), nontriv,
+                         spec, False, "check_api", [text_as, absent_as], val))
+        jobs.append((GF, feats(s, opt, ints, extra, fval, path="foreign"), nontriv, spec, True, "check_foreign", [], fval))
         for source, v in (("api", val), ("foreign", fval)):
-            F = feats(s, opt, ints, extra, v, path="pickle", source=source)
-            with Case(ctx, GP, F, nontrivial=nontriv,
-                      snippet=LazySnippet(f"check_pickle(T, idl, TO, SNAME, VAL, {source!r})", s, v),
-                      contract="x == pickle.loads(pickle.dumps(x)) and the unpickled values are x's") as c:
-                what = check_pickle(T, idl, TO, s, v, source)
-                if what:
-                    c.fail(what)
+            jobs.append((GP, feats(s, opt, ints, extra, v, path="pickle", source=source), nontriv, spec,
+                         source == "foreign", "check_pickle", [source], v))
             has_str = flags(idl, s, v)[3]
             for text_as in (("str", "bytes") if source == "api" and has_str else ("str",)):
                 for via in ("to_bytes", "pickle"):
                     F = feats(s, opt, ints, extra, v, path="eq", source=source, via=via,
                               str_scalar_given_as_str=bool(source == "api" and has_str and text_as == "str"))
-                    with Case(ctx, GE, F, nontrivial=nontriv,
-                              snippet=LazySnippet(f"check_eq(T, idl, TO, SNAME, VAL, {source!r}, {text_as!r}, {via!r})", s, v),
-                              contract="from_buffer(to_bytes(x)) == x ; pickle.loads(pickle.dumps(x)) == x "
-                                       "(parsed object on the left)") as c:
-                        what = check_eq(T, idl, TO, s, v, source, text_as, via)
-                        if what:
-                            c.fail(what)
+                    jobs.append((GE, F, nontriv, spec, source == "foreign", "check_eq", [source, text_as, via], v))
     if skipped:
         ctx.note(f"c10: {skipped} generated values above the in-process size cap were skipped")
 
-    # ---- over-size payloads: child processes only ----------------------------------------------
+    # over-size payloads run concurrently with the workers (each in its own child process)
     sizes = [400_000, 499_000, 500_100, 600_000, 2_000_000]
     if ctx.tier == "quick":
-        jobs = [(site, n, "api") for site in OVERSIZE_SITES for n in sizes]
-        jobs += [(site, 600_000, "foreign") for site in OVERSIZE_SITES]
+        ojobs = [(site, n, "api") for site in OVERSIZE_SITES for n in (499_000, 600_000)]
+        ojobs += [(site, 600_000, "foreign") for site in OVERSIZE_SITES[::2]]
+        ojobs += [(site, 2_000_000, "api") for site in OVERSIZE_SITES[1::4]]
     else:
-        jobs = [(site, n, p) for site in OVERSIZE_SITES for n in sizes + [499_900, 500_000, 1_000_000]
-                for p in ("api", "foreign")]
-    with concurrent.futures.ThreadPoolExecutor(max_workers=12) as ex:
-        results = list(ex.map(run_oversize, jobs))
-    for site, n, path, what in results:
-        F = {"site": site, "payload_bytes": n, "payload_gt_buffer": n > 500_000 - 200, "path": path}
+        ojobs = [(site, n, p) for site in OVERSIZE_SITES for n in sizes + [499_900, 499_990, 500_000, 1_000_000]
+                 for p in ("api", "foreign")]
+    ncpu = os.cpu_count() or 2
+    with concurrent.futures.ThreadPoolExecutor(max_workers=10) as oex:
+        ofuts = [oex.submit(run_oversize, j) for j in ojobs]
+        wire = [{"spec": j[3], "crypto": j[4], "fn": j[5], "args": j[6], "seed": seed} for j in jobs]
+        results, unevaluated = run_worker_jobs(wire, max(2, min(8, ncpu - 6)))
+        oresults = [f.result() for f in ofuts]
+    for (group, F, nontriv, spec, crypto, fn, args, v), what in zip(jobs, results):
+        if what == NOT_EVALUATED:
+            continue
+        call = f"{fn}(T, idl, TO, SNAME, VAL" + "".join(f", {a!r}" for a in args) + ")"
+        with Case(ctx, group, F, nontrivial=nontriv, snippet=LazySnippet(call, spec[0], v), contract=contracts[group]) as c:
+            if what:
+                c.fail(what)
+    if unevaluated:
+        ctx.note(f"c10: {unevaluated} cases were not evaluated because worker processes kept dying (each death is "
+                 "reported as a failed case); they are not counted as evaluations")
+
+    # ---- over-size payloads: child processes only ----------------------------------------------
+    for site, n, path, what, size in oresults:
+        F = {"site": site, "payload_bytes": n, "serialised_gt_500000": None if size is None else size > 500_000,
+             "path": path}
         with Case(ctx, GO, F, snippet=oversize_snippet(site, n, path),
                   contract="to_bytes never truncates: strict_idl_decode(to_bytes(x)) == x for any size") as c:
             if what:
                 c.fail(what)
+
+
+if __name__ == "__main__":
+    _worker_main()
